@@ -182,6 +182,7 @@ def vcr_matrix(tier, seed):
     """Bounded native matrix: metadata shapes x hostile URIs / bodies x preserve_bytes x sanitize -> the cassette must load as YAML with exactly one interaction
     carrying the method / status / uri that were recorded."""
     import yaml
+    from schemathesis.core.output.sanitization import sanitize_url
 
     uris = ["http://127.0.0.1/x?a=1", "http://127.0.0.1/it's", "http://127.0.0.1/x?q=%27"]
     bodies = [None, b"", b"plain", b"ctrl\x01\x02", b"\xff\xfe invalid utf8", "￾ ￿  ".encode("utf8"), b'quote " and \\ backslash']
@@ -191,19 +192,21 @@ def vcr_matrix(tier, seed):
     for meta_kind in ("none", "fuzzing", "coverage"):
         for uri in uris:
             for body in bodies:
-                for preserve in (False, True):
+                for preserve, sanitize in ((False, False), (True, False), (False, True), (True, True)):
                     n += 1
-                    text = _cassette_for(meta_kind, uri, body, preserve, sanitize=False)
+                    text = _cassette_for(meta_kind, uri, body, preserve, sanitize=sanitize)
+                    # (with sanitization on the URL written is the sanitized one - the same text for these credential-free URLs; C15 decides what is redacted)
+                    expected_uri = sanitize_url(uri) if sanitize else uri
                     problem = None
                     try:
                         doc = yaml.safe_load(text)
                         items = doc["http_interactions"]
-                        if len(items) != 1 or items[0]["request"]["uri"] != uri or items[0]["request"]["method"] != "GET" or str(items[0]["response"]["status"]["code"]) != "200":
+                        if len(items) != 1 or items[0]["request"]["uri"] != expected_uri or items[0]["request"]["method"] != "GET" or str(items[0]["response"]["status"]["code"]) != "200":
                             problem = "interaction not faithful"
                     except Exception as exc:  # noqa: BLE001
                         problem = f"not valid YAML: {type(exc).__name__}"
                     if problem:
-                        entry = {"meta": meta_kind, "uri": uri, "body": repr(body), "preserve_bytes": preserve, "problem": problem}
+                        entry = {"meta": meta_kind, "uri": uri, "body": repr(body), "preserve_bytes": preserve, "sanitize_output": sanitize, "problem": problem}
                         if meta_kind == "none" and KNOWN_F16D:
                             if "F16d" not in known:
                                 known.append("F16d")
@@ -214,7 +217,7 @@ def vcr_matrix(tier, seed):
                             viol.append(entry)
     texts = {"F16d": "F16d: a case without metadata (meta is None) is written as `status: 'SUCCESS'null`: the cassette is not valid YAML",
              "F16a": "F16a: a single quote in the request URI breaks the single-quoted YAML scalar `uri: '...'`"}
-    return {"name": "vcr_matrix", "bound": f"3 metadata shapes x {len(uris)} URIs x {len(bodies)} bodies x preserve_bytes", "evaluations": n, "exhaustive": False,
+    return {"name": "vcr_matrix", "bound": f"3 metadata shapes x {len(uris)} URIs x {len(bodies)} bodies x preserve_bytes x sanitize_output", "evaluations": n, "exhaustive": False,
             "violations": viol, "known_findings_hit": [texts[k] for k in known]}
 
 
